@@ -778,7 +778,7 @@ func (s *Sim) findOrMakeRevision(set *asv1.StatefulSet, c *SetCfg, tv int, creat
 	t := TemplateFor(c, tv)
 	want := templateContent(&t)
 	for _, r := range All[*appsv1.ControllerRevision](s.Store, KRev) {
-		if got, ok := RevTemplate(r); ok && got == want {
+		if got, ok := RevTemplate(r); ok && sameTemplate(got, want) {
 			if ref := controllerOf(r); ref == nil || (set != nil && ref.UID == set.UID) {
 				return r.Name
 			}
